@@ -240,7 +240,11 @@ def tr1(ctx, R):
             conds += [x for x, _b in find(it, ("cmp", "==", W(), W()))]
         eqs = [x for g in conds for x, _b in find(g, ("cmp", "==", W(), W())) if find(x, ("attr", W(), "raw_buffer_index"))]
         outer = [(it, bv) for it, bv in loops if find(it, ("call", "daqmx.get_buffer_dimensions", W(), W()))]
-        if not eqs or not outer:
+        if not outer:
+            R.undecided(key, main.where(c), "the decoding is not lexically inside the loop over get_buffer_dimensions(...): how scalers are matched to their buffer "
+                        "was not recognised")
+            continue
+        if not eqs:
             R.violation(key, main.where(c), "scalers are not matched to the buffer by raw_buffer_index == position of the buffer (no such test guards the decoding)")
             continue
         it, bv = outer[0]
